@@ -400,11 +400,16 @@ class Strata2DViewport:
         """Determine the appropriate axis from the position vector."""
         chosen_axis: Optional[Axis] = None
         axis: Axis
-        for axis in ('x', 'y', 'z'):
-            if pos[axis] in (0.0, -65536.0, 65536.0):
-                if chosen_axis is not None:
-                    raise ValueError(f'Multiple axes specified for 2D view position "{pos}"!')
-                chosen_axis = axis
+        # The planar axis is marked with +-65536, which is what export() writes. Only if no axis has that
+        # marker is a zero accepted, since 0 is also an ordinary value for the other two coordinates.
+        for markers in [(-65536.0, 65536.0), (0.0, )]:
+            for axis in ('x', 'y', 'z'):
+                if pos[axis] in markers:
+                    if chosen_axis is not None:
+                        raise ValueError(f'Multiple axes specified for 2D view position "{pos}"!')
+                    chosen_axis = axis
+            if chosen_axis is not None:
+                break
         if chosen_axis is None:
             raise ValueError(f'No axis for 2D view position "{pos}"!')
         u, v = Vec.INV_AXIS[chosen_axis]
